@@ -216,10 +216,64 @@ def generate_mp_context(repo=None):
         if not extra:
             return "false"
         raise translate.TranslateError("translation of %s no longer matches: unexpected configure arguments %s" % (qual, extra))
+    # ---- Parallel.__init__: whose default_n_jobs is read when neither the call nor the context gives n_jobs
+    init_src = [ast.unparse(st) for st in node.body]
+    dn = [st for st in node.body if isinstance(st, ast.If) and ast.unparse(st.test) == "n_jobs is None"
+          and len(st.body) == 1 and isinstance(st.body[0], ast.Assign) and ast.unparse(st.body[0].value).endswith(".default_n_jobs")]
+    if len(dn) != 1:
+        raise translate.TranslateError("translation of Parallel.__init__ no longer matches: `if n_jobs is None: n_jobs = <x>.default_n_jobs`")
+    owner = ast.unparse(dn[0].body[0].value)[:-len(".default_n_jobs")]
+    idx = node.body.index(dn[0])
+    last_backend_store = max(i for i, st in enumerate(node.body)
+                             if any(isinstance(n, ast.Assign) and ast.unparse(n.targets[0]) == "backend" for n in ast.walk(st)))
+    if owner not in ("backend", "active_backend") or idx < last_backend_store or \
+            "n_jobs = _get_config_param(n_jobs, context_config, 'n_jobs')" not in init_src[:idx]:
+        raise translate.TranslateError("translation of Parallel.__init__ no longer matches: default_n_jobs read from `%s`" % owner)
+    # ---- BatchedCalls.__reduce__ / __init__: does the pickled batch keep the (nested backend, nested n_jobs) pair
+    red, _ = translate.find_function(path, "BatchedCalls.__reduce__")
+    rets = [n for n in ast.walk(red) if isinstance(n, ast.Return)]
+    if len(rets) != 1 or not isinstance(rets[0].value, ast.Tuple) or len(rets[0].value.elts) != 2 \
+            or not isinstance(rets[0].value.elts[1], ast.Tuple) or len(rets[0].value.elts[1].elts) < 2:
+        raise translate.TranslateError("translation of BatchedCalls.__reduce__ no longer matches: return (BatchedCalls, (items, ...))")
+    second = ast.unparse(rets[0].value.elts[1].elts[1])
+    if second == "(self._backend, self._n_jobs)":
+        keeps = "true"
+    elif second == "self._backend":
+        keeps = "false"
+    else:
+        raise translate.TranslateError("translation of BatchedCalls.__reduce__ no longer matches: second constructor argument `%s`" % second)
+    # ---- LokyBackend.configure: the idle-worker timeout the executor is built with
+    lc, _ = translate.find_function(pb, "LokyBackend.configure")
+    st_idle = [st for st in lc.body if any(isinstance(n, ast.Assign) and ast.unparse(n.targets[0]) == "idle_worker_timeout" for n in ast.walk(st))]
+    calls = [n for n in ast.walk(lc) if isinstance(n, ast.Call) and ast.unparse(n.func) == "get_memmapping_executor"]
+    if len(st_idle) != 1 or len(calls) != 1 or "timeout=idle_worker_timeout" not in [ast.unparse(k) for k in calls[0].keywords]:
+        raise translate.TranslateError("translation of LokyBackend.configure no longer matches: idle_worker_timeout")
+    fake = ast.FunctionDef(name="idle", args=ast.arguments(posonlyargs=[], args=[], kwonlyargs=[], kw_defaults=[], defaults=[]),
+                           body=[st_idle[0], ast.Return(value=ast.Name(id="idle_worker_timeout", ctx=ast.Load()))],
+                           decorator_list=[], lineno=st_idle[0].lineno)
+    tr = translate.Tr({"params": [("idle_worker_timeout", "option Z"), ("obj", "option Z")],
+                       "env": {"idle_worker_timeout": ("idle_worker_timeout", "optZ")},
+                       "subst": {"self.backend_kwargs.get('idle_worker_timeout', 300)":
+                                 ("(match obj with Some v => v | None => 300 end)", "Z")},
+                       "skip": [], "ret": "Z"})
+    try:
+        idle_code = tr.function(fake, "src_idle_worker_timeout")
+    except translate.TranslateError as e:
+        raise translate.TranslateError("translation of LokyBackend.configure (idle_worker_timeout) no longer matches: %s" % e)
+    except Exception as e:  # noqa
+        raise translate.TranslateError("translation of LokyBackend.configure (idle_worker_timeout) no longer matches: %s: %s" % (type(e).__name__, e))
     text = MPC_HEADER + (
         "Definition src_mp_context (env arg : option Z) (dflt : Z) : option Z :=\n  let ctx := None in\n%s\n  ctx.\n\n"
-        "Definition pool_abort_passes_kwargs : bool := %s.\nDefinition loky_abort_passes_kwargs : bool := %s.\n" % (
-            "\n".join(lets), passes("PoolManagerMixin.abort_everything"), passes("LokyBackend.abort_everything")))
+        "Definition pool_abort_passes_kwargs : bool := %s.\nDefinition loky_abort_passes_kwargs : bool := %s.\n\n"
+        "(* Parallel.__init__: with n_jobs given neither by the call nor by the context, default_n_jobs is read from the backend the\n"
+        "   call really uses (true) or from the active backend of the enclosing context (false) *)\n"
+        "Definition default_njobs_of_used_backend : bool := %s.\n\n"
+        "(* BatchedCalls.__reduce__: the pickled batch keeps the (nested backend, nested n_jobs) pair *)\n"
+        "Definition reduce_keeps_njobs : bool := %s.\n\n"
+        "(* LokyBackend.configure: the idle-worker timeout handed to the executor; idle_worker_timeout = the value passed by the call\n"
+        "   (None = not passed), obj = the one carried by the backend object *)\n%s" % (
+            "\n".join(lets), passes("PoolManagerMixin.abort_everything"), passes("LokyBackend.abort_everything"),
+            "true" if owner == "backend" else "false", keeps, idle_code))
     out = os.path.join(common.COQ, "Gen", "T_mp_context.v")
     changed = common.write_if_changed(out, text)
     return out, changed, []
